@@ -51,7 +51,7 @@ func genSizeCase(t *rapid.T) SizeCase {
 func TestC18(t *testing.T) {
 	rapid.Check(t, func(rt *rapid.T) {
 		c := genSizeCase(rt)
-		st, err := pbt.Safe(runSizes, c)
+		st, err := pbt.SafeJ("C18", "sizes", runSizes, c)
 		if st == nil {
 			st = &sizeStats{}
 		}
